@@ -286,6 +286,22 @@ def _capture_calls(fn):
     fn.body = out
 
 
+def _entry_points(fn):
+    """(d) WHICH astropy entry points a method uses: `cap_entry_all = 1` when every pixel<->world call in the method goes
+    through `all_pix2world` / `all_world2pix` (core WCS + SIP + look-up-table distortions) and there is at least one,
+    `0` when any call uses the core-only `wcs_pix2world` / `wcs_world2pix` (in any branch).  Inserted as the first statement."""
+    n_all = n_core = 0
+    for node in _ast.walk(fn):
+        if isinstance(node, _ast.Attribute):
+            if node.attr in ('all_pix2world', 'all_world2pix'):
+                n_all += 1
+            elif node.attr in ('wcs_pix2world', 'wcs_world2pix'):
+                n_core += 1
+    if n_all + n_core:
+        fn.body.insert(0, _ast.Assign(targets=[_ast.Name(id='cap_entry_all', ctx=_ast.Store())],
+                                      value=_ast.Constant(value=1 if n_core == 0 else 0)))
+
+
 def _plumbing(cls):
     helpers = {st.name for st in cls.body if isinstance(st, _ast.FunctionDef) and st.name.startswith('_')}
     for st in cls.body:
@@ -294,6 +310,7 @@ def _plumbing(cls):
                 saved = _copy.deepcopy(st.body)
                 _unpack_params(st)
                 _capture_calls(st)
+                _entry_points(st)
             except Exception:
                 st.body = saved
 
@@ -379,6 +396,11 @@ _PLUMBING = [
          all_params=['w2p_0', 'w2p_1'], fallback_imports=[_H]),
     dict(file=_W, func='WCSHelper.sky2pix', mode='real', params={}, outputs=[('cap_all_world2pix_1_1', 'sky2pixOrigin')],
          fallback={'sky2pixOrigin': _fbp('sky2pixOrigin', [])}, all_params=[], fallback_imports=[_H]),
+    # which astropy entry point: all_* (the header's full WCS: core + SIP + look-up tables) everywhere
+    dict(file=_W, func='WCSHelper.pix2sky', mode='real', params={}, outputs=[('cap_entry_all', 'pix2skyEntryAll')],
+         fallback={'pix2skyEntryAll': _fbp('pix2skyEntryAll', [])}, all_params=[], fallback_imports=[_H]),
+    dict(file=_W, func='WCSHelper.sky2pix', mode='real', params={}, outputs=[('cap_entry_all', 'sky2pixEntryAll')],
+         fallback={'sky2pixEntryAll': _fbp('sky2pixEntryAll', [])}, all_params=[], fallback_imports=[_H]),
     # the offset point handed to the second (and third) pix2sky call of pix2sky_vec / pix2sky_ellipse
     dict(file=_W, func='WCSHelper.pix2sky_vec', mode='real', params={p: 'A' for p in _PX + ['r', 'theta']},
          outputs=[('cap_pix2sky_2_0_0', 'p2sVecOffX'), ('cap_pix2sky_2_0_1', 'p2sVecOffY')],
